@@ -1,7 +1,7 @@
 (* C20 property theorems: statements only, each closed by [exact].
    w = int(1/threshold) >= 1 is the bucket width; ks is the whole stream of additions
    (update with an iterable, a mapping or kwargs expands to additions: op_keys). *)
-From Boltons Require Import Lib.Prelude Lib.PySrc Model.C20_Model Spec.C20_Spec Proofs.C20_Proofs Gen.C20_Src Proofs.C20_SrcEq.
+From Boltons Require Import Lib.Prelude Lib.PySrc Model.C20_Model Spec.C20_Spec Proofs.C20_Proofs Proofs.C20_Size Gen.C20_Src Proofs.C20_SrcEq.
 Open Scope N_scope.
 
 (* (T) tie: the Gallina text regenerated on this run from the current source of
@@ -48,13 +48,15 @@ Print Assumptions C20_bucket.
    items, common/uncommon, most_common() and most_common(n), len, get, keys, values, elements)
    satisfies exactly the predicate [spec_core] that [holds] evaluates on the implementation's
    observations: counts never over, under by at most the slack, heavy keys present, no duplicate
-   key, common+uncommon = total, views consistent, most_common sorted descending and a prefix. *)
+   key, common+uncommon = total, views consistent, most_common sorted descending and a prefix,
+   and len within the logarithmic bound 2*w*(log2(total/w+1)+1). *)
 Theorem C20_refines_spec_partial : forall w ops i n probe, 1 <= w ->
   let pre := firstn i ops in
   let o := observe (fold_left tc_step pre (tc_init w)) n probe in
   spec_core w (flat_map op_keys pre) (o_total o) (o_items o) (o_common o) (o_uncommon o)
-            (o_mc_all o) (o_mc_n o) n (o_len o) probe (o_probe o) (o_keys o) (o_values o) (o_elems o) = true.
-Proof. exact history_meets_spec. Qed.
+            (o_mc_all o) (o_mc_n o) n (o_len o) probe (o_probe o) (o_keys o) (o_values o) (o_elems o)
+  && spec_size_log w (flat_map op_keys pre) (o_len o) = true.
+Proof. exact history_meets_spec_and_size. Qed.
 Print Assumptions C20_refines_spec_partial.
 (* FULL statement (not provable, see next theorem): the above conjoined with
    [spec_size (2/threshold) (o_len o) = true], i.e. at most 2/threshold tracked keys. *)
@@ -64,6 +66,13 @@ Print Assumptions C20_refines_spec_partial.
 Theorem C20_size_refuted : exists ks, 2 * 60 < tc_len (tc_adds (tc_init 60) ks).
 Proof. exact size_refuted. Qed.
 Print Assumptions C20_size_refuted.
+
+(* ... and what the algorithm does guarantee: at most 2*w*(log2(buckets)+1) tracked keys after
+   any stream (w = int(1/threshold), buckets = total/w + 1) - logarithmic, not constant *)
+Theorem C20_size_log_bound : forall w ks, 1 <= w ->
+  tc_len (tc_adds (tc_init w) ks) <= 2 * w * (N.log2 (N.of_nat (length ks) / w + 1) + 1).
+Proof. exact size_log_bound_stream. Qed.
+Print Assumptions C20_size_log_bound.
 
 (* hypotheses are inhabited by a non-trivial state: w = 3, a stream with a heavy key,
    compactions, an evicted key and a re-inserted key *)
